@@ -4,11 +4,70 @@ from . import common as C
 
 
 class Ctx:
-    def __init__(self, pid, tier, seed):
+    def __init__(self, pid, tier, seed, shards=1, shard=0):
         self.pid, self.tier, self.seed = pid, tier, seed
         self.quick = tier == 'quick'
         self.driver = C.Driver()
         self.notes = []
+        self.shards, self.shard = shards, shard       # the thorough budget is split over `shards` worker processes
+
+    def n(self, quick, thorough, full=False):
+        """budget of this process: the quick budget, or its share of the thorough one (also used for the failing-input search)"""
+        if self.quick and not full:
+            return quick
+        return max(quick if self.shards > 1 else 1, -(-thorough // self.shards))
+
+
+WORKERS = max(1, min(14, (os.cpu_count() or 2) - 2))
+
+
+def _worker(args):
+    pid, tier, seed, shards, shard, what, full = args
+    import importlib as il
+    prop = il.import_module(f'vlib.props.{pid.lower()}')
+    ctx = Ctx(pid, tier, seed * 1009 + shard if shards > 1 else seed, shards, shard)
+    try:
+        if what == 'correspondence':
+            return prop.correspondence(ctx)
+        return prop.oracle(ctx, full)
+    except Exception as e:
+        import traceback
+        return dict(worker_error=f"{type(e).__name__}: {e}", trace=traceback.format_exc()[-1500:])
+
+
+def _merge(results, what):
+    out = {}
+    errs = [r for r in results if 'worker_error' in r]
+    if errs:
+        raise RuntimeError(errs[0]['worker_error'] + "\n" + errs[0]['trace'])
+    for r in results:
+        for k, v in r.items():
+            if k in ('disagreements', 'findings', 'samples'):
+                out.setdefault(k, []).extend(v)
+            elif isinstance(v, bool):
+                out[k] = out.get(k, False) or v
+            elif isinstance(v, (int, float)):
+                out[k] = out.get(k, 0) + v
+            elif isinstance(v, dict):
+                d = out.setdefault(k, {})
+                for a, b in v.items():
+                    d[a] = (d.get(a, 0) + b) if isinstance(b, (int, float)) and not isinstance(b, bool) else b
+            else:
+                out.setdefault(k, v)
+    out['samples'] = out.get('samples', [])[:4]
+    return out
+
+
+def run_part(prop, ctx, what, full=False):
+    """correspondence / oracle: in-process for the quick budget, sharded over worker processes for the thorough budget"""
+    if (ctx.quick and not full) or WORKERS == 1 or not getattr(prop, 'SHARDABLE', True):
+        return prop.correspondence(ctx) if what == 'correspondence' else prop.oracle(ctx, full)
+    import multiprocessing as mp
+    with mp.get_context('fork').Pool(WORKERS) as pool:
+        res = pool.map(_worker, [(ctx.pid, ctx.tier, ctx.seed, WORKERS, w, what, full) for w in range(WORKERS)])
+    out = _merge(res, what)
+    out['workers'] = WORKERS
+    return out
 
 
 def unit_validation(units, seed, per_unit):
@@ -86,7 +145,7 @@ def main(argv=None):
         corr = None
         if hasattr(prop, 'correspondence'):
             if ok_d:
-                corr = prop.correspondence(ctx)
+                corr = run_part(prop, ctx, 'correspondence')
                 cov['traces_validated_against_impl'] = corr.get('traces', 0)
                 cov['correspondence'] = {k: v for k, v in corr.items() if k not in ('disagreements', 'samples')}
                 cov['disagreements_checked'] = len(corr.get('disagreements', []))
@@ -95,7 +154,7 @@ def main(argv=None):
             else:
                 cov['traces_validated_against_impl'] = 0
         # direct oracle on the real code (small budget when everything is intact, full budget as failing-input search)
-        orc = prop.oracle(ctx, full=bool(broken))
+        orc = run_part(prop, ctx, 'oracle', full=bool(broken))
         findings = orc.get('findings', [])
         cov['evaluations'] = orc.get('evaluations', 0) + (uv['evaluated'] if uv else 0) + (corr.get('evaluations', 0) if corr else 0)
         cov['distinct_nontrivial'] = orc.get('distinct_nontrivial', 0) + (corr.get('distinct_nontrivial', 0) if corr else 0)
